@@ -120,6 +120,26 @@ BSize_(n) == n = Pending /\ UNCHANGED <<pend, asg, cur>>
 \* empty() returned b
 BEmpty_(b) == b = (Pending = 0) /\ UNCHANGED <<pend, asg, cur>>
 
+\* OBSERVERS.  size() and empty() are read-only: they may be called by ANY thread - the consumer (polling), a producer
+\* (back-pressure: while (size() >= limit) wait), threads that do nothing else (monitors, "readers") - and by any number
+\* of them at the same time.  Each call is still ONE step that returns the length / emptiness of the atomic state at its
+\* linearisation point and changes nothing; who else is inside size() / empty() at that moment is not part of the state,
+\* so it cannot influence the answer.  In particular, while no push_back is open or made (mutators quiescent) every
+\* empty() is TRUE and every size() is 0 on a drained buffer, whatever the number of concurrent observers.
+\* MACRO ACTION: k >= 1 consecutive size() / empty() calls of one thread that all returned the same result (run-length
+\* form of a recording).  Each of the k calls has its own linearisation point; the run is explained only if at least one
+\* state agrees with the result, which is what this step asks for (the law "an observer step leaves the state unchanged",
+\* ObserverIsReadOnly in HandOffMC, makes k steps at one state equal to one).
+BSizeRun_(n, k)  == k >= 1 /\ BSize_(n)
+BEmptyRun_(b, k) == k >= 1 /\ BEmpty_(b)
+
+\* POLL LOOP of the single consumer:  if (!empty()) batch = consume();  resp.  if (size() > 0) ...
+\* Only the consumer removes elements, so an element it observed through empty() = FALSE / size() > 0 is still pending
+\* when its next consume() takes effect; the header documents consume() as "take all contents of the buffer", of which
+\* this clause keeps the weakest consequence: that batch is not empty.  (Strict = TRUE implies it, law PollThenConsume in
+\* HandOffMC; the statement's own clauses - prefix per producer - are unchanged.)
+BConsumePolled_(batch) == BConsume_(batch) /\ batch # <<>>
+
 \* end of an execution: all producers have stopped and the consumer called consume() once more
 BEnd_ == (\A p \in Producers : pend[p] = <<>>)                    \* nothing lost
          /\ UNCHANGED <<pend, asg, cur>>
@@ -129,6 +149,8 @@ BBurst(p, vs)   == BBurst_(p, vs)   /\ last' = [op |-> "bpush",   arg |-> vs,   
 BConsume(batch) == BConsume_(batch) /\ last' = [op |-> "consume", arg |-> <<>>,  res |-> batch]
 BSize(n)        == BSize_(n)        /\ last' = [op |-> "size",    arg |-> <<>>,  res |-> n]
 BEmpty(b)       == BEmpty_(b)       /\ last' = [op |-> "empty",   arg |-> <<>>,  res |-> b]
+BSizeRun(n, k)  == BSizeRun_(n, k)  /\ last' = [op |-> "sizes",   arg |-> k,     res |-> n]
+BEmptyRun(b, k) == BEmptyRun_(b, k) /\ last' = [op |-> "empties", arg |-> k,     res |-> b]
 BEnd            == BEnd_            /\ last' = [op |-> "end",     arg |-> "buf", res |-> <<>>]
 
 -------------------------------------------------------------------------------
@@ -191,6 +213,8 @@ BNext == \/ \E v \in Elems : BPush(v[1], v)
          \/ \E batch \in Batches : BConsume(batch)
          \/ \E n \in 0..Cardinality(Elems) : BSize(n)
          \/ \E b \in BOOLEAN : BEmpty(b)
+         \/ \E n \in 0..Cardinality(Elems), k \in 1..2 : BSizeRun(n, k)
+         \/ \E b \in BOOLEAN, k \in 1..2 : BEmptyRun(b, k)
          \/ BEnd
 VNext == \/ \E v \in Vals : Len(asg) < MaxAssign /\ VAssign(v)
          \/ \E r \in BOOLEAN : VUpdate(r)
@@ -207,6 +231,8 @@ StepOf(r) == CASE r.op = "push"    -> BPush(r.arg[1], r.arg)
                [] r.op = "consume" -> BConsume(r.res)
                [] r.op = "size"    -> BSize(r.res)
                [] r.op = "empty"   -> BEmpty(r.res)
+               [] r.op = "sizes"   -> BSizeRun(r.res, r.arg)
+               [] r.op = "empties" -> BEmptyRun(r.res, r.arg)
                [] r.op = "assign"  -> VAssign(r.arg)
                [] r.op = "update"  -> VUpdate(r.res)
                [] r.op = "get"     -> VGet(r.res)
